@@ -14,7 +14,7 @@ use std::rc::Rc;
 pub static ENGINE: Engine = Engine {
     prop: "C04",
     level: "exploration",
-    rule: "every function f over k ordered variables with gaps (k=3: 256, also as diagrams never interned in the operating environment; k=4: 65536; operands are interned canonical diagrams) x every variable list V of length <= 3 (with repeats) over the support variables plus variables above, between and below the support x {exists, all, exists_impl}: truth table of the result = brute-force quantification; no node of the result tests a member of V; result identical (==) for every reordering / de-duplication of V (compared with the sorted duplicate-free list); V empty or disjoint from the support => result == f; all(V,f) == not(exists(V,not f)). A wide family: and/or chains over 33, 40, 65 and 70 variables under exists/forall of variables around ids 31/32/63/64 against diagrams built in closed form. A 185-member family over 6 variables x every permutation of the six variables and every 4- and 5-subset in three orders. Text level: the language's quantifier node on every function of 2 and 3 named variables x every list <= 3 through the real evaluator; every AST <= N nodes over a quantifier alphabet (lists incl. empty, repeated, trailing comma, any/all spellings, names reused bound and free, quantifiers inside lfp/gfp bodies) through the real parser+evaluator vs the reference. distinct = distinct (f, V, operation) + distinct formula texts",
+    rule: "every function f over k ordered variables with gaps (k=3: 256, also as diagrams never interned in the operating environment; k=4: 65536; operands are interned canonical diagrams) x every variable list V of length <= 3 (with repeats) over the support variables plus variables above, between and below the support x {exists, all, exists_impl}: truth table of the result = brute-force quantification; no node of the result tests a member of V; result identical (==) for every reordering / de-duplication of V (compared with the sorted duplicate-free list); V empty or disjoint from the support => result == f; all(V,f) == not(exists(V,not f)). A wide family: and/or chains over 33, 40, 65 and 70 variables under exists/forall of variables around ids 31/32/63/64 against diagrams built in closed form. A 185-member family over 6 variables x every permutation of the six variables and every 4- and 5-subset in three orders. Text level: the language's quantifier node on every function of 2 and 3 named variables x every list <= 3 through the real evaluator; every AST <= N nodes over a quantifier alphabet (lists incl. empty, repeated, trailing comma, any/all spellings, names reused bound and free, quantifiers inside lfp/gfp bodies) through the real parser+evaluator vs the reference. Scoping stratum at text level: every formula with <= 6 (7) nodes over negation, one connective, if-then-else, four quantifier heads (one listing a fixed-point binder) and one fixed point, and its dual, that contains a quantifier. distinct = distinct (f, V, operation) + distinct formula texts",
     assumptions: &["truth tables by an independent walker; reference quantification by cofactor enumeration", "k <= 4 variables, |V| <= 3, AST size bound"],
     max_shards: 64,
     run,
@@ -217,8 +217,16 @@ fn quant_alpha() -> Alpha {
 
 fn text_sweep(ctx: &mut Ctx) {
     let upto = if ctx.thorough() { 5 } else { 4 };
-    let mut g = Gen::new(quant_alpha());
-    let mut idx = 0u64;
+    text_sweep_on(ctx, quant_alpha(), upto, 0);
+    // quantifiers around if-then-else, negated quantifiers, lists that name a fixed-point binder
+    let deep = if ctx.thorough() { 7 } else { 6 };
+    text_sweep_on(ctx, crate::props::c01::scoping_core(false), deep, 1 << 40);
+    text_sweep_on(ctx, crate::props::c01::scoping_core(true), deep, 2 << 40);
+}
+
+fn text_sweep_on(ctx: &mut Ctx, alpha: Alpha, upto: usize, base: u64) {
+    let mut g = Gen::new(alpha);
+    let mut idx = base;
     for size in 1..=upto {
         let mut todo = vec![];
         g.stream(size, &mut |a| {
@@ -233,13 +241,14 @@ fn text_sweep(ctx: &mut Ctx) {
                     Ast::Q(..) => true,
                     Ast::Not(x) | Ast::Fp(_, _, x) => has_q(x),
                     Ast::Bin(_, l, r) => has_q(l) || has_q(r),
+                    Ast::Ite(c, t, e) => has_q(c) || has_q(t) || has_q(e),
                     _ => false,
                 }
             }
             if !has_q(&a) {
                 continue;
             }
-            for text in renderings(&a, i, size <= 2) {
+            for text in if size >= 6 { vec![refl::pp(&a, refl::MINIMAL)] } else { renderings(&a, i, size <= 2) } {
                 if refl::parse(&text).as_ref() != Ok(&a) {
                     panic!("machinery: round trip failed for {text}");
                 }
